@@ -6,6 +6,15 @@ Implementation under test (real code, in-process):
     plus direct calls of FlowIR.override_object / FlowIR.interpolate for the unit-level relations.
 Model: lean/St4sd/Model/{Tree,Interp,Convert,Resolve}.lean via drv-c04.  Theorems: lean/St4sd/Props/C04.lean.
 
+Besides single questions to a fresh object: (g) the same cases asked with every combination of the keyword
+arguments raw / include_default / is_primitive / inject_missing_fields (model: Tree.resolveF), and (h) sequences
+of read-only operations on ONE FlowIRConcrete that describes several components per stage (queries of every
+keyword variant, instance(), replicate(), raw(), copy(), component / blueprint / variable getters - every
+returned object is scribbled on -, reference getters without a write) with points at which EVERY component is
+fully resolved on every platform: each answer is compared with the model's resolution of the ORIGINAL
+description, with the layering oracle computed from the ORIGINAL document, and with a fresh object that was
+never asked anything else; the description must not change.
+
 Oracles (model independent): `spec_*` below restate the property on the implementation's answer:
   * the value of an option/variable = the one of the highest-priority layer that defines it
     (None does not count for options), layers of other platforms are never visible;
@@ -1082,7 +1091,7 @@ def run_sequence(case, tmpdir):
                     # the same question to a fresh object that was never asked anything else
                     fresh = F.FlowIRConcrete(copy.deepcopy(doc), "default", {})
                     ref = impl_resolve(fresh, cid, P, False, STD_FLAGS)
-                    if json.dumps(ref, sort_keys=True) != json.dumps(out, sort_keys=True):
+                    if not canon_eq(coarse_error(ref), coarse_error(out)):
                         failures.append(("resolution-depends-on-earlier-read-only-operations",
                                          {"component": list(cid), "platform": P, "after_operations": list(done),
                                           "difference": first_difference(ref, out)}))
@@ -1260,7 +1269,30 @@ def unit_interp(ctx, rng, n):
 
 
 CORPUS = []
-SEQ_CORPUS = []
+
+
+def _flatten_before_resolve():
+    """minimal regression input of the sequence stream: a stage-scoped blueprint holding sections that the
+    global blueprint lacks, two components in the stage that differ in the options they set, the workflow is
+    flattened (what writing an instance description does) before the sibling is resolved"""
+    doc = base_doc()
+    doc["components"].append({"name": "s0", "stage": 0, "command": {}, "variables": {}, "override": {}})
+    idx = {r[0]: i for i, r in enumerate(SEQ_ROUTES)}
+    routes = [idx[("resourceManager", "config", "walltime")], idx[("resourceRequest", "numberThreads")],
+              idx[("resourceRequest", "memory")], idx[("resourceRequest", "numberProcesses")]]
+    doc["blueprint"]["default"]["stages"][0] = {"resourceManager": {"config": {"walltime": 30.5}},
+                                                "resourceRequest": {"numberProcesses": 2}}
+    doc["components"][0].update(resourceManager={"config": {"walltime": 5.5}},
+                                resourceRequest={"numberThreads": 4, "memory": 1024})
+    doc["variables"]["default"]["global"]["v"] = "vDG"
+    for c in doc["components"]:
+        c["command"]["arguments"] = "<%(v)s>"
+    ops = [{"op": "read", "what": "instance", "platform": "default", "fill_in_all": False, "prim": True, "inject": False},
+           {"op": "resolveAll"}]
+    return {"kind": "sequence", "doc": doc, "user": None, "routes": routes, "ops": ops}
+
+
+SEQ_CORPUS = [_flatten_before_resolve()]
 
 
 def run(ctx):
@@ -1280,7 +1312,13 @@ def run(ctx):
                 "probes; (f) unit cases of override_object / interpolate on random trees / strings. non-trivial = "
                 ">= 2 layers define the key (masks), the input has >= 1 reference (interp), the trees share a key "
                 "(override), always (others); distinct by canonical JSON of the case. thorough: all 2^6 option masks "
-                "and all 2^8 variable masks for both platforms and both stages.")
+                "and all 2^8 variable masks for both platforms and both stages. (g) half of the cases of (a)-(e) asked "
+                "again with a random non-default combination of raw / include_default / is_primitive / "
+                "inject_missing_fields. (h) sequence: a description with 3-5 components (>= 2 per stage), 3-6 option "
+                "routes and one variable defined by random subsets of the global AND stage-scoped blueprints / "
+                "variables of three platforms and of every component and override; 2-8 read-only operations on one "
+                "object (queries of every keyword variant, instance, replicate, raw, copy, getters, reference getters) "
+                "with resolve-everything points in between and at the end; non-trivial = >= 2 read-only operations.")
     ctx.assumptions = [
         "generated strings contain no '[' (array access is not modelled) and no dotted variable names",
         "int()/float() literals are drawn from the documented subset (sign+digits; <=10 integer and <=4 fractional digits)",
@@ -1289,6 +1327,8 @@ def run(ctx):
     ]
     ctx.trusted.append("C04: FlowIRConcrete.__init__/raw() (normalisation of the document) is used to obtain the "
                        "description handed to the model; floats compared by repr")
+    ctx.trusted.append("C04: answers of instance() / replicate() / getters inside sequences are not compared (only "
+                       "their effect on later resolutions and on the description is)")
     tmpdir = tempfile.mkdtemp(prefix="c04-")
     try:
         cases = []
